@@ -13,8 +13,8 @@ set_option linter.unusedSectionVars false
 set_option linter.unusedSimpArgs false
 set_option linter.unusedVariables false
 set_option linter.unnecessarySeqFocus false
-namespace Zk
-open Res
+namespace Zk.Total
+open Zk Res
 
 /-! ### `mapRes`, index helpers -/
 
@@ -107,6 +107,17 @@ theorem sortDedup_length_le (l : List Nat) : (sortDedup l).length ≤ l.length :
   unfold sortDedup
   have := dedupAdj_length_le (l.mergeSort (· ≤ ·))
   simpa using this
+
+/-- `chunks_exact(32)` yields at most `len / 32` chunks. -/
+theorem chunks32_length_le (n : Nat) (b : Bytes) : (chunks32 n b).length ≤ b.length / 32 := by
+  induction n generalizing b with
+  | zero => simp [chunks32]
+  | succ n ih =>
+    rw [chunks32]
+    split
+    · simp
+    · have := ih (b.drop 32)
+      simp at this ⊢; omega
 
 section
 variable {S G1 G2 : Type}
@@ -357,8 +368,9 @@ theorem sumIndexed_ne_panic (Hs : List G1) (acc : G1) (is : List Nat) (ss : List
   obtain ⟨x, hx⟩ := sumIndexed_ok Hs acc is ss hlen hin
   rw [hx]; simp
 
-/-- If no element of a non-empty... helper: from the bound check `i > L - 1` failing for every
-element, every element is `< L` provided `l.length ≤ L`. -/
+/-- When the bound check `i > L - 1` fails for every element of `l` and `l.length ≤ L`, every
+element is `< L` (for `L = 0` the list is empty, so the truncated `L - 1` is never consulted —
+exactly as in the Rust, where the loop body does not run). -/
 theorem lt_of_not_any_gt {l : List Nat} {L : Nat} (hlen : l.length ≤ L)
     (h : ¬ (l.any (fun i => decide (i > L - 1)) = true)) : ∀ i ∈ l, i < L := by
   intro i hi
@@ -733,4 +745,4 @@ theorem coreSign_panic (sk : S) (pk : G2) (gens : Generators G1) (header : Optio
           | some inv => rw [hi] at h; simp only at h; split at h <;> cases h
 
 end
-end Zk
+end Zk.Total
